@@ -293,7 +293,7 @@ impl G {
                 33 => ColumnType::Money(Some((1 + r.below(12) as u32, r.below(4) as u32))), 34 => ColumnType::Json, 35 => ColumnType::JsonBinary, 36 => ColumnType::Uuid,
                 37 => r.pick(&[ColumnType::Cidr, ColumnType::Inet, ColumnType::MacAddr, ColumnType::LTree, ColumnType::Vector(None), ColumnType::Vector(Some(3))]).clone(),
                 38 => ColumnType::Enum { name: a("Mood").into_iden(), variants: vec![a("ok").into_iden(), a("it's").into_iden()] },
-                _ => ColumnType::Array(std::sync::Arc::new(if r.chance(1, 2) { ColumnType::Integer } else { ColumnType::String(StringLen::N(k)) }).into()),
+                _ => crate::util::array_of(if r.chance(1, 2) { ColumnType::Integer } else { ColumnType::String(StringLen::N(k)) }),
             };
             let ok = match (self.b, &t) { (B::Mysql, ColumnType::Cidr | ColumnType::Inet | ColumnType::MacAddr | ColumnType::LTree | ColumnType::Vector(_) | ColumnType::Array(_)) => false, (B::Postgres, ColumnType::Year) => false, _ => true };
             if ok { return t; }
